@@ -59,6 +59,10 @@ _arith('int', 'i64')
 _arith('uint', 'u64')
 
 ARITH_TWINS = [k for k in KANI if k.startswith('arith_')]
+# the division / remainder twins (64- and 128-bit division circuits) and uint negation (an error path through format!) need more than 20 min of CBMC each
+# to PROVE; they stay available as counterexample finders when a Verus obligation fails (a failing run ends in seconds) but are not registered as proofs
+ARITH_SLOW = [k for k in ARITH_TWINS if k.endswith('_div') or k.endswith('_rem') or k == 'arith_uint_neg']
+ARITH_FAST = [k for k in ARITH_TWINS if k not in ARITH_SLOW]
 
 TF = 'rscel/src/context/type_funcs.rs'
 DF = 'rscel/src/context/default_funcs.rs'
@@ -121,7 +125,7 @@ for _n, _c in [('time_ts_plus_dur', 't + d is the chrono result or an error when
                     claim=_c, vars=None)
 
 ALL_UNITS = ['value_arith', 'value_cmp', 'value_coll', 'macros', 'preresolved', 'interp', 'interp_vm_g0', 'interp_vm_g1', 'interp_vm_g2', 'interp_vm_g3',
-             'interp_vm_g4', 'interp_vm_g5', 'interp_vm_g6', 'interp_vm_g7', 'builtins', 'wiring', 'parser', 'json', 'compprog', 'parser_expr', 'parser_unary', 'parser_match', 'scanner', 'tokenizer', 'parser_member', 'parser_matchx', 'parser_top', 'balance']
+             'interp_vm_g4', 'interp_vm_g5', 'interp_vm_g6', 'interp_vm_g7', 'builtins', 'wiring', 'parser', 'json', 'compprog', 'parser_expr', 'parser_unary', 'parser_match', 'scanner', 'tokenizer', 'parser_member', 'parser_matchx', 'parser_top', 'balance', 'semantics']
 
 PROPS = {
     'C02': dict(
@@ -157,7 +161,7 @@ PROPS = {
     'C01': dict(
         units=ALL_UNITS, safety_only=True,
         kani_quick=[],
-        kani_thorough=ARITH_TWINS + CONV + MATH,
+        kani_thorough=ARITH_FAST + CONV + MATH,
         level_text='Totality is the conjunction of the safety obligations of every function under contract: for each of them Verus proves, for all inputs satisfying its precondition, no arithmetic overflow, no division by zero, every index in bounds, every unwrap/expect on Some/Ok, every panic!/unreachable! unreachable, and that each call site establishes its callee\'s precondition. The claim covers exactly the functions listed in the evidence (value operators, comparisons, indexing, macros, the VM loop and stack, label resolution, numeric built-ins through Kani); it is not a whole-program claim.',
         not_covered=['functions not under contract: the recursive-descent parser and tokenizer, JSON / protobuf conversions, Display, regex / uom / chrono-tz internals, string built-ins beyond their wiring, python / wasm bindings',
                      'stack exhaustion by deep syntactic nesting in the parser (no depth guard to put a contract on)', 'termination (never fails to return) is not proved',
@@ -225,14 +229,14 @@ PROPS = {
         assumptions=['sort: the comparator is ord; that slice::sort_by with a total order returns an ordered permutation is std\'s contract (not under contract here)'],
     ),
     'C05': dict(
-        units=['value_cmp', 'value_arith', 'interp_vm_g0', 'interp_vm_g1', 'parser', 'parser_expr', 'parser_match', 'parser_matchx', 'balance'],
+        units=['value_cmp', 'value_arith', 'interp_vm_g0', 'interp_vm_g1', 'parser', 'parser_expr', 'parser_match', 'parser_matchx', 'balance', 'semantics'],
         assumptions=[],
-        not_covered=['the composition "jump template + VM arm contracts => laziness / failure absorption" is not a machine-checked lemma: the templates are pinned instruction by instruction (ternary_code, and_jump / or_jump, cases_code, any_code) and the VM arms are pinned; the argument that these templates are lazy is the doc comment on the spec functions'],
+        not_covered=['unit semantics proves what the pinned templates COMPUTE (ternary: exactly one clause, chosen by truthiness, a failed condition is the result; ||: right operand skipped exactly when the left is truthy; &&: skipped exactly when the left is falsy or fails; match: only the first matching arm, null otherwise) for operand blocks that are single PUSH instructions and, for match, two comparison cases; lifting to arbitrary balanced operand blocks (unit balance) and to chains / any number of cases is not machine-checked', 'the small-step interpreter of unit semantics restates the VM arms (Test, Dup, Pop, Not, Or, And, Jmp, JmpCond) proved in units interp_vm_g0 / g1; their agreement is by inspection'],
     ),
     'C03': dict(
         units=['value_arith'],
         kani_quick=[],
-        kani_thorough=ARITH_TWINS,
+        kani_thorough=ARITH_FAST,
         twins={
             r'as (Add)::add::.*(int_result|no-overflow)': 'arith_int_add', r'as Add::add::.*uint_result': 'arith_uint_add',
             r'as Sub::sub::.*(int_result|no-overflow)': 'arith_int_sub', r'as Sub::sub::.*uint_result': 'arith_uint_sub',
